@@ -122,6 +122,26 @@ def c05_stages(tier, seed):
             c01_family("F5_c05", replay="C05", fam="F5", leafs="F5_Leafs", maxsel=3, maxnodes=3, dirs="DirsNone")]
 
 
+def c13_stages(tier, seed):
+    big = tier != "quick"
+    fam = c01_family("F13_t" if big else "F13_q", replay="C13", fam="F13", op='"mutation"', leafs="F13_Leafs",
+                     comps="F13_Comps", frags="FragsM" if big else "NoFrags", spread="SpreadLater" if big else "NoSpread",
+                     maxsel=3, maxnodes=6 if big else 5, maxdepth=3 if big else 2, dirs="DirsNone", outs="OT_Thunks",
+                     inv=["Emit"])
+    fam["trace_out"] = "c13.ndjson"
+    fam["replay_args"] = ["--reps", "5" if big else "3", "--trace-cap", "400000" if big else "60000"]
+    return [
+        tlc_check("Spec_ExecSteps_serial", "ExecSteps",
+                  dict(spec="SpecSerial", constants={"N": 5 if big else 4}, invariants=["Serial", "OnceAndCausal"],
+                       properties=["Terminates"] if False else [])),
+        tlc_check("Spec_ExecSteps_asis", "ExecSteps",
+                  dict(spec="SpecDeferAll", constants={"N": 3}, invariants=["Serial"]), expect_violation="Serial"),
+        fam,
+        dict(kind="trace_validate", cfg="Trace_C13", module="Trace_C13", trace_file="c13.ndjson",
+             cfgdict=dict(spec="TraceSpec", constants={"N": 1}, invariants=["TraceInv"], postcondition="TraceAccepted")),
+    ]
+
+
 EXEC_ASSUME = [
     "the reference semantics in spec/Exec.tla + Coerce.tla is a faithful transcription of the GraphQL execution algorithm (checked by in-model theorems KeyPresence/WellFormedRoot and by hand against the specification text)",
     "exhaustive only within the stated bounds (families, selections per set, nodes, depth); schema S1 fixed",
@@ -144,6 +164,16 @@ PROPS = {
              "outcomes from the site alphabets (one vector per outcome table); non-trivial = table with >= 1 "
              "non-natural outcome (distinct tables counted by the harness)",
         assumptions=EXEC_ASSUME + ["a site is (type, field, source); outcomes per site from the alphabet in MC_C04.tla"]),
+    "C13": dict(
+        stages=c13_stages, level="model_checking",
+        rule="(1) TLC checks Serial/OnceAndCausal on ExecSteps!SpecSerial for ALL forests of N nodes x all thunk placements "
+             "and all interleavings, and shows that the defer-all design violates Serial; (2) TLC enumerates mutation "
+             "documents (family F13: <=3 top-level fields, aliases, duplicate keys, nested selections, lists, fragments) x 6 "
+             "thunk placements; the harness executes each several times and records res/force events; (3) every recorded "
+             "log must be a behaviour of ExecSteps!NextSerial (Trace_C13). Non-trivial = request with >= 2 top-level fields "
+             "and >= 1 thunk",
+        assumptions=EXEC_ASSUME + ["events are logged by harness resolvers/thunks (no library hook)",
+                                   "order inside one top-level field's subtree is not constrained"]),
     "C05": dict(
         stages=c05_stages, level="model_checking",
         rule="TLC enumerates every (argument of Q.g, route in {literal, variable, variable default}, value) triple over "
@@ -222,5 +252,15 @@ MANIFEST_TEXT["C05"] = dict(
     note="Trusted: TLC, Coerce.tla, harness value conversion (class representatives for numbers). Edition-dependent inputs "
          "(numeric strings/booleans/fractions for Int, etc.) are not asserted.",
     technique="TLA+ coercion semantics + TLC exhaustive (type, value, route) enumeration replayed into the real executor")
+
+MANIFEST_TEXT["C13"] = dict(
+    text="Model checking + trace validation: ExecSteps.tla specifies the small-step order of resolver runs and thunk forcing; "
+         "TLC proves Serial for the mandated design over all forests/thunk placements/interleavings of the bound and exhibits "
+         "the counterexample for the defer-all design; TLC-generated mutation documents x thunk placements are executed by the "
+         "real library and each recorded event log is accepted only if it is a behaviour of the mandated design "
+         "(Trace_C13), with Serial re-checked on every prefix.",
+    note="Trusted: TLC, ExecSteps.tla, harness event logging in resolvers and thunks. Bounded document family; repeated runs "
+         "sample Go's map iteration orders.",
+    technique="TLA+ small-step spec (ExecSteps) model-checked by TLC + trace validation of recorded resolver/thunk event logs")
 
 NOT_APPLICABLE = {}
